@@ -19,7 +19,7 @@ LEVEL_TEXT = ('Proof: 39 Coq theorems. convert_channel is modelled exactly as wr
               'to the code by the translator (fails closed on any change of a macro body) and by running the extracted model against the '
               'real From impls for all 196 type pairs.')
 LEVEL_NOTE = ('"Nearest" (half a target step) is FALSE for the 30 RGB->Gray conversions, which round twice (machine-checked witness '
-              'C13_rgb_gray_nearest_refuted, see FINDINGS-C13.md and PARTIAL); for them the theorems give the computed formula, nearest of '
+              'C13_rgb_gray_nearest_refuted, see notes/findings/FINDINGS-C13.md and PARTIAL); for them the theorems give the computed formula, nearest of '
               'the second stage, an end-to-end bound of 1/2 + max_luma/255 steps against exact arithmetic, extremes and monotonicity. '
               'The luma weights and all other literals read by the translator are pinned to their documented values '
               '(C13_luma_is_bt601, C13_constants_pinned). Trusted: Coq kernel incl. vm_compute, the regex '
